@@ -433,6 +433,74 @@ Definition segmented_idents (toks : list token) : option (list str * list token)
 Definition lit_of (t : token) : option str :=
   match t with TIdent s | TString s | TInteger s | TNumber s | TDuration s => Some s | _ => None end.
 
+(* a measurement: segmented identifiers, then possibly a regex *)
+Definition parse_mst (toks : list token) : option (source * list token) :=
+  match segmented_idents toks with
+  | Some ([a; b; c], r) => Some (SMst a b c None, r)
+  | Some (ids, r) =>
+      let re := regex_first r in
+      let r' := match re with Some (_, x) => x | None => r end in
+      let reo := match re with Some (s, _) => Some s | None => None end in
+      match ids, reo with
+      | [a], Some _ => Some (SMst [] a [] reo, r')
+      | [a], None => Some (SMst [] [] a None, r')
+      | [a; b], Some _ => Some (SMst a b [] reo, r')
+      | [a; b], None => Some (SMst [] a b None, r')
+      | _, _ => None
+      end
+  | None => None
+  end.
+
+(* after the statement of a sub-query: ")" and an optional "AS alias" *)
+Definition sub_after (st : stmt) (r2 : list token) : option (source * list token) :=
+  match skip_ws r2 with
+  | TRParen :: r3 =>
+      match skip_ws r3 with
+      | TKeyword c2 :: r4 =>
+          if c2 =? K KAs then
+            match skip_ws r4 with
+            | t :: r5 => match lit_of t with
+                         | Some (x :: a) => Some (SSub st (x :: a), r5)
+                         | _ => Some (SSub st [], skip_ws r4)
+                         end
+            | [] => Some (SSub st [], [])
+            end
+          else Some (SSub st [], skip_ws r3)
+      | _ => Some (SSub st [], skip_ws r3)
+      end
+  | _ => None
+  end.
+
+(* the clauses after the sources, in the order the parser tries them *)
+Definition parse_tail (fuel : nat) (fields : list (expr * str)) (sources : list source) (r2 : list token) : option (stmt * list token) :=
+  match parse_condition r2 with
+  | Some (cond, r3) =>
+    match parse_dimensions fuel r3 with
+    | Some (dims, r4) =>
+      match parse_fill r4 with
+      | Some (fl, r5) =>
+        match parse_order_by fuel r5 with
+        | Some (sort, r6) =>
+          match parse_opt_int (K KLimit) r6 with
+          | Some (limit, r7) =>
+            match parse_opt_int (K KOffset) r7 with
+            | Some (offset, r8) =>
+              match parse_opt_int (K KSlimit) r8 with
+              | Some (slimit, r9) =>
+                match parse_opt_int (K KSoffset) r9 with
+                | Some (soffset, r10) =>
+                  match parse_location r10 with
+                  | Some (tz, r11) => Some (Stmt fields sources cond dims fl sort limit offset slimit soffset tz, r11)
+                  | None => None end
+                | None => None end
+              | None => None end
+            | None => None end
+          | None => None end
+        | None => None end
+      | None => None end
+    | None => None end
+  | None => None end.
+
 Fixpoint parse_source (fuel : nat) (toks : list token) {struct fuel} : option (source * list token) :=
   match fuel with
   | O => None
@@ -446,45 +514,13 @@ Fixpoint parse_source (fuel : nat) (toks : list token) {struct fuel} : option (s
           | TKeyword c :: r1 =>
               if c =? K KSelect then
                 match parse_stmt f r1 with
-                | Some (st, r2) =>
-                    match skip_ws r2 with
-                    | TRParen :: r3 =>
-                        match skip_ws r3 with
-                        | TKeyword c2 :: r4 =>
-                            if c2 =? K KAs then
-                              match skip_ws r4 with
-                              | t :: r5 => match lit_of t with
-                                           | Some (x :: a) => Some (SSub st (x :: a), r5)
-                                           | _ => Some (SSub st [], skip_ws r4)
-                                           end
-                              | [] => Some (SSub st [], [])
-                              end
-                            else Some (SSub st [], skip_ws r3)
-                        | _ => Some (SSub st [], skip_ws r3)
-                        end
-                    | _ => None
-                    end
+                | Some (st, r2) => sub_after st r2
                 | None => None
                 end
               else None
           | _ => None
           end
-      | _ =>
-          match segmented_idents toks with
-          | Some ([a; b; c], r) => Some (SMst a b c None, r)
-          | Some (ids, r) =>
-              let re := regex_first r in
-              let r' := match re with Some (_, x) => x | None => r end in
-              let reo := match re with Some (s, _) => Some s | None => None end in
-              match ids, reo with
-              | [a], Some _ => Some (SMst [] a [] reo, r')
-              | [a], None => Some (SMst [] [] a None, r')
-              | [a; b], Some _ => Some (SMst a b [] reo, r')
-              | [a; b], None => Some (SMst [] a b None, r')
-              | _, _ => None
-              end
-          | None => None
-          end
+      | _ => parse_mst toks
       end
     end
   end
@@ -511,35 +547,9 @@ with parse_stmt (fuel : nat) (toks : list token) {struct fuel} : option (stmt * 
         | TKeyword c :: r1 =>
           if c =? K KFrom then
             match parse_sources f r1 with
-            | Some (sources, r2) =>
-              match parse_condition r2 with
-              | Some (cond, r3) =>
-                match parse_dimensions fuel r3 with
-                | Some (dims, r4) =>
-                  match parse_fill r4 with
-                  | Some (fl, r5) =>
-                    match parse_order_by fuel r5 with
-                    | Some (sort, r6) =>
-                      match parse_opt_int (K KLimit) r6 with
-                      | Some (limit, r7) =>
-                        match parse_opt_int (K KOffset) r7 with
-                        | Some (offset, r8) =>
-                          match parse_opt_int (K KSlimit) r8 with
-                          | Some (slimit, r9) =>
-                            match parse_opt_int (K KSoffset) r9 with
-                            | Some (soffset, r10) =>
-                              match parse_location r10 with
-                              | Some (tz, r11) => Some (Stmt fields sources cond dims fl sort limit offset slimit soffset tz, r11)
-                              | None => None end
-                            | None => None end
-                          | None => None end
-                        | None => None end
-                      | None => None end
-                    | None => None end
-                  | None => None end
-                | None => None end
-              | None => None end
-            | None => None end
+            | Some (sources, r2) => parse_tail fuel fields sources r2
+            | None => None
+            end
           else None
         | _ => None
         end
